@@ -128,6 +128,8 @@ type BlockUtils struct {
 	// RejectBody: bodies this node's validator rejects although the block is good
 	// (allowed consumer behaviour).
 	RejectBody map[string]bool
+	// AcceptNilBlock: a lenient consumer that does not object to a proposal without a block.
+	AcceptNilBlock bool
 	// Hooks (optional). OnRequest runs inside RequestNewBlockProposal before the block is minted;
 	// OnValidate runs inside ValidateBlockProposal before the verdict.
 	OnRequest  func(ctx context.Context, h uint64)
@@ -152,6 +154,8 @@ func (u *BlockUtils) ValidateBlockProposal(ctx context.Context, h primitives.Blo
 		u.OnValidate(ctx, uint64(h), b)
 	}
 	switch {
+	case b == nil && u.AcceptNilBlock:
+		err = nil
 	case b == nil:
 		err = errors.New("nil block")
 	case b.Bad:
